@@ -601,15 +601,18 @@ func (sw *SessionWindow) SetCallback(callback func([]types.Row)) {
 // held (the "Locked" convention — re-entering the non-reentrant mutex would
 // deadlock). Returns true if the event was absorbed into a triggered session.
 func (sw *SessionWindow) handleLateData(row types.Row) bool {
-	for _, info := range sw.triggeredSessions {
-		if info.session.slot.Contains(row.Timestamp) {
-			// Append the late event before re-emitting so the update includes it.
-			info.session.data = append(info.session.data, row)
-			sw.triggerLateUpdateLocked(info.session)
-			return true
-		}
+	// Only the triggered session of the row's own key may absorb it: a session of
+	// another key covering the timestamp is unrelated.
+	key := extractSessionCompositeKey(row.Data, sw.config.GroupByKeys)
+	info, ok := sw.triggeredSessions[key]
+	if !ok || !info.session.slot.Contains(row.Timestamp) {
+		return false
 	}
-	return false
+	// Append the late event before re-emitting so the update includes it.
+	row.Slot = info.session.slot
+	info.session.data = append(info.session.data, row)
+	sw.triggerLateUpdateLocked(info.session)
+	return true
 }
 
 // triggerLateUpdateLocked triggers a late update for a session (must be called with lock held)
